@@ -124,8 +124,7 @@ def cases_file(s, cases, asts, runs, cfg, evals, extra_imports="", extra_asts=()
              ["(%s, %s)" % (k, coq_option(None if v is None else coq_string(v))) for k, v in stab]),
          "Definition O := table_oracle ftab stab.\n",
          "Definition sch : schema := %s.\n" % gen.schema_coq(s),
-         "Definition cfg : config := {| parent_concurrently := %s; list_concurrently := %s |}.\n" % (
-             coq_bool(cfg["parent"]), coq_bool(cfg["list"])),
+         "Definition cfg : config := %s.\n" % execgen.cfg_coq(cfg, s),
          "Definition cases : list (document * usercode * option string * vars * pyval * response) := %s.\n"
          % coq_list([case_term(s, c, a, r) for c, a, r in zip(cases, asts, runs)])]
     L += evals
@@ -161,18 +160,35 @@ def explore(tier_, seed, prop, kinds=("query",), adversarial=0.08, fail=0.08, wi
     n_schemas, n_cases = n_override or ((5, 60) if tier_ == "quick" else (40, 150))
     files, meta = [], []
     cfg = {"parent": True, "list": True, "args": "gather"}
-    for si in range(n_schemas):
-        s = execgen.gen_exec_schema(rng, with_mutation=with_mutation)
-        cases = gen_cases(rng, s, n_cases, kinds, adversarial, fail)
+    for si in range(-1, n_schemas):
+        if si == -1:
+            # hand-written witnesses of the shapes the properties single out, before anything random
+            s = execgen.hand_abstract_schema()
+            cases = execgen.hand_abstract_cases(rng, 2 if tier_ == "quick" else 6)
+        else:
+            s = execgen.gen_exec_schema(rng, with_mutation=with_mutation)
+            cases = gen_cases(rng, s, n_cases, kinds, adversarial, fail)
         if expand:
             cases = expand(rng, s, cases, cfg)
         asts = [gen.parse_query(c["query"]) for c in cases]
         runs = asyncio.run(run_cases(s, cases, fresh_schema_name(prop.lower()), cfg))
         step = 30
         for j in range(0, len(cases), step):
-            files.append(("%s_s%d_%d_%d" % (prop, seed, si, j),
+            files.append(("%s_s%d_%s_%d" % (prop, seed, ("h" if si < 0 else str(si)), j),
                           cases_file(s, cases[j:j + step], asts[j:j + step], runs[j:j + step], cfg, evals, extra_imports)))
             meta.append((s, cases[j:j + step], asts[j:j + step], runs[j:j + step]))
+        # the same requests on an engine whose fields carry MIXED per-field concurrency settings: compared with the
+        # implementation model under that configuration (data, errors, call log); of the specification's verdict only
+        # data / error paths / conformance apply (a failing sequential field legitimately keeps later ones from starting)
+        nm = min(len(cases), 30 if tier_ == "quick" else 90)
+        for m, par in ((1, True), (2, False)):
+            mcfg = {"parent": par, "list": not par, "args": "gather", "mixed": m}
+            mruns = asyncio.run(run_cases(s, cases[:nm], fresh_schema_name(prop.lower() + "mx"), mcfg))
+            for j in range(0, nm, step):
+                files.append(("%sM%d_s%d_%s_%d" % (prop, m, seed, ("h" if si < 0 else str(si)), j),
+                              cases_file(s, cases[j:min(nm, j + step)], asts[j:min(nm, j + step)], mruns[j:j + step], mcfg, evals,
+                                         extra_imports)))
+                meta.append((s, cases[j:min(nm, j + step)], asts[j:min(nm, j + step)], mruns[j:j + step], mcfg))
     results = common.run_coq_many(files)
     explore.files = [f[0] for f in files]
     return meta, results
@@ -216,7 +232,9 @@ def run_property(pid, tier_, bits, explore_kwargs, property_files, extra_python_
     meta, results = explore(tier_, seed, pid, evals=IMPL_EVAL + SPEC_EVAL, **explore_kwargs)
     total = nontriv = 0
     impl_mm, viol = [], []
-    for fi, ((s, cases, asts, runs), (ok, so, se)) in enumerate(zip(meta, results)):
+    for fi, (mt, (ok, so, se)) in enumerate(zip(meta, results)):
+        s, cases, asts, runs = mt[:4]
+        mixed = mt[4] if len(mt) > 4 else None
         total += len(cases)
         if not ok:
             rep.violation({"property": pid, "what": "case file failed to evaluate", "stderr": se[-1500:]},
@@ -230,10 +248,12 @@ def run_property(pid, tier_, bits, explore_kwargs, property_files, extra_python_
             why = []
             v = verdicts[i] if i < len(verdicts) else 0
             for bit, name in BIT_NAMES.items():
-                if v & bit & bits:
-                    why.append(name)
-            if extra_python_check:
+                if v & bit & bits & ((1 | 8 | 16) if mixed else -1):
+                    why.append(name + (" (per-field concurrency settings %r)" % (mixed,) if mixed else ""))
+            if extra_python_check and not mixed:
                 why += extra_python_check(c, r)
+            if mixed and r["raised"]:
+                why.append("execute raised %s under per-field concurrency settings %r" % (r["raised"], mixed))
             if why:
                 viol.append((s, c, r, why))
             elif i in mm:
